@@ -466,6 +466,21 @@ func (l *Local) Allocate(ctx context.Context, cni *daemon.CNI, request ResourceR
 			l.cond.L.Lock()
 			defer l.cond.L.Unlock()
 
+			// a cancelled request is answered before this goroutine runs: the pod's DEL may have been served meanwhile
+			// (and the address handed to another pod). What is not ours any more must not be taken again
+			gone4 := ipv4 != nil && ipv4.podID != cni.PodID
+			gone6 := ipv6 != nil && ipv6.podID != cni.PodID
+			if gone4 || gone6 {
+				if ipv4 != nil && !gone4 && !keepV4 {
+					ipv4.Release(cni.PodID)
+				}
+				if ipv6 != nil && !gone6 && !keepV6 {
+					ipv6.Release(cni.PodID)
+				}
+				close(respCh)
+				return
+			}
+
 			l.commitKeep(ctx, respCh, ipv4, ipv6, cni.PodID, keepV4, keepV6)
 		}()
 		return respCh, nil
